@@ -19,7 +19,7 @@ SHAPES = [(1, 2), (2, 2), (2, 3)]
 
 
 def cfg_seeded(tier, seed):
-    out = [{'fn': f, 'shape': list(s)} for f in ('poisson', 'poisson-any-sign', 'gaussian', 'read_noise', 'read_noise-int', 'dark', 'dark-fpn', 'rule07') for s in SHAPES]
+    out = [{'fn': f, 'shape': list(s)} for f in ('poisson', 'poisson-any-sign', 'gaussian', 'read_noise', 'read_noise-int', 'dark', 'dark-fpn', 'rule07', 'rule07-fpn') for s in SHAPES]
     return out, len(out), True
 
 
@@ -82,6 +82,13 @@ def run_seeded(W, cfg):
         for i in range(shp[0]):
             for j in range(shp[1]):
                 W.ob_true(f'non-negative [{i},{j}]', out[i, j] >= 0)
+    elif fn == 'rule07-fpn':
+        T = W.real('T', lo=100, hi=300)
+        fpn = W.real('fpn', pos=True, hi=1)
+        out = D.rule07_dark_current(T, 5e-6, 5e-6, shape=shp, fpn_factor=fpn, seed=seed)
+        out2 = D.rule07_dark_current(T, 5e-6, 5e-6, shape=shp, fpn_factor=fpn, seed=seed)
+        W.ob('same seed: same fixed pattern (Rule 07 route)', out2, out)
+        W.ob_true('frame shape', tuple(out.shape) == shp)
     else:
         T = W.real('T', pos=True)
         out = D.rule07_dark_current(T, 5e-6, 5e-6, shape=shp, fpn_factor=0, seed=seed)
@@ -98,6 +105,8 @@ def cfg_ps(tier, seed):
         n = s[0] * s[1]
         for bits in (2 ** n - 1, (2 ** n - 1) & ~1, 0b1011 if n >= 4 else 0b11):
             out.append({'shape': list(s), 'bits': bits})
+        # a mask that is not strictly 0/1 (antialiased edge weights): the RMS is still taken over its support
+        out.append({'shape': list(s), 'bits': 2 ** n - 1, 'weights': True})
     return out, len(out), True
 
 
@@ -108,7 +117,7 @@ def run_ps(W, cfg):
     mask = rnp.zeros(shp)
     for k, (r, c) in enumerate(cells):
         if cfg['bits'] >> k & 1:
-            mask[r, c] = 1
+            mask[r, c] = (0.5 + ((r + 2 * c) % 3) / 4.0) if cfg.get('weights') else 1
     rms = W.real('rms', pos=True)
     seed = W.int('seed', 0, 1 << 30)
     n_ev0 = len(W.rng_events())
